@@ -9,6 +9,7 @@ import (
 	"pgregory.net/rapid"
 
 	"github.com/bluenviron/gomavlib/v3/pkg/dialect"
+	"github.com/bluenviron/gomavlib/v3/pkg/dialects/common"
 	"github.com/bluenviron/gomavlib/v3/pkg/frame"
 
 	"verifharness/evid"
@@ -64,6 +65,41 @@ func signedKnownAt(di *dialectInfo, ts uint64, seq byte) []byte {
 	return f.Bytes()
 }
 
+// historyFrameKinds[i] refines known[i] for runHistoryDialect: 0/1 heartbeat, 2 known message with a checksum for
+// another definition, 3 SETUP_SIGNING.
+var historyFrameKinds = map[int]int{}
+
+func signedKnownWrongChecksumAt(di *dialectInfo, ts uint64, seq byte) []byte {
+	f := ref.Frame{V2: true, Incompat: 1, Seq: seq, Sys: 9, Comp: 8, ID: 0, Payload: []byte{1, 2, 3, 4, 5, 6, 7, 8, 9}, LinkID: linkOf(seq), Timestamp: ts}
+	f.Checksum = f.ChecksumFor(di.layouts[0].CRCExtra ^ 0x5A)
+	f.Sig = f.SignatureFor(c07Key)
+	return f.Bytes()
+}
+
+func setupSigningStamp(ts uint64, i int) uint64 {
+	switch i % 4 {
+	case 0:
+		return 1 // "start counting here": far below anything on the link
+	case 1:
+		return ts + 50000000
+	case 2:
+		if ts > 30000000 {
+			return ts - 30000000
+		}
+		return 1 << 40
+	}
+	return 1<<48 - 1
+}
+
+func signedSetupSigningAt(di *dialectInfo, ts uint64, seq byte, stamp uint64) []byte {
+	lay := di.layouts[256]
+	f := ref.Frame{V2: true, Incompat: 1, Seq: seq, Sys: 9, Comp: 8, ID: 256, LinkID: linkOf(seq), Timestamp: ts}
+	f.Payload = lay.Encode(&common.MessageSetupSigning{TargetSystem: 1, TargetComponent: 1, SecretKey: [32]uint8{1, 2, 3}, InitialTimestamp: stamp}, true)
+	f.Checksum = f.ChecksumFor(lay.CRCExtra)
+	f.Sig = f.SignatureFor(c07Key)
+	return f.Bytes()
+}
+
 // runHistory feeds the history through one reader and compares each decision with the model.
 func runHistory(hist []uint64, frames map[uint64][]byte) (string, error) {
 	return runHistoryDialect(hist, nil, nil)
@@ -75,13 +111,37 @@ func runHistoryDialect(hist []uint64, di *dialectInfo, known []bool) (string, er
 	var stream []byte
 	var lens []int
 	var prevBytes []byte
+	var pre windowModel
+	refusedForChecksum := map[int]bool{}
 	for i, ts := range hist {
 		b := signedAt(ts, byte(i)) // link id depends on the position
 		if di != nil && known[i] {
 			b = signedKnownAt(di, ts, byte(i))
+			switch historyFrameKinds[i] {
+			case 2:
+				// a peer built against another revision of the message: correctly signed, its checksum does not
+				// fit this dialect - refused for that, and none of the window's business. Only where it could not
+				// have moved the window anyway (not newer than the newest), so that nothing depends on whether a
+				// refused frame counts as "accepted" for the window.
+				if pre.has && ts <= pre.newest && pre.newest-ts <= windowTicks {
+					b = signedKnownWrongChecksumAt(di, ts, byte(i))
+					refusedForChecksum[i] = true
+				}
+			case 3:
+				// SETUP_SIGNING passing by: its payload names a key and a timestamp of its own, which are the
+				// application's to act on; the link's window follows the frames' signature timestamps
+				b = signedSetupSigningAt(di, ts, byte(i), setupSigningStamp(ts, i))
+			}
 		}
 		if i > 0 && hist[i-1] == ts && verbatimDup[i] {
 			b = prevBytes // the same frame once more, byte for byte (a duplicated datagram)
+			delete(refusedForChecksum, i)
+			if refusedForChecksum[i-1] {
+				refusedForChecksum[i] = true
+			}
+		}
+		if !refusedForChecksum[i] {
+			pre.step(ts)
 		}
 		prevBytes = b
 		stream = append(stream, b...)
@@ -126,6 +186,12 @@ func runHistoryDialect(hist []uint64, di *dialectInfo, known []bool) (string, er
 		}
 		pos = r.end
 		hadNewest, newest := m.has, m.newest
+		if refusedForChecksum[i] {
+			if r.err == nil {
+				return "", fmt.Errorf("step %d: a correctly signed frame whose checksum does not fit the dialect's definition was delivered", i)
+			}
+			continue
+		}
 		want := m.step(ts)
 		got := r.err == nil
 		if got != want {
@@ -207,7 +273,7 @@ func TestC07WindowEnumerated(t *testing.T) {
 
 func TestC07WindowRandom(t *testing.T) {
 	rec := evid.New(t, "C07", "rapid histories (<=40 frames) mixing boundary values, random 48-bit timestamps and newest+-delta around 1,000,000; model comparison at every step; non-trivial = some frame older than newest but inside the window, on the boundary, or newest < 1,000,000; distinct by hash of the history")
-	rec.Require("inside-window", "on-boundary", "just-outside", "newest-below-window", "forged-interleaved", "dialect-reader-known+unknown-messages", "frame-repeated-byte-for-byte", "run-of-8+-stale-frames-with-rising-timestamps", "transport-error-between-frames", "same-key-stored-again-between-frames", "application-restamps-received-frames", "second-link-with-the-same-key-object")
+	rec.Require("inside-window", "on-boundary", "just-outside", "newest-below-window", "forged-interleaved", "dialect-reader-known+unknown-messages", "frame-repeated-byte-for-byte", "run-of-8+-stale-frames-with-rising-timestamps", "transport-error-between-frames", "same-key-stored-again-between-frames", "application-restamps-received-frames", "second-link-with-the-same-key-object", "history-with-setup-signing-or-foreign-checksum-frames")
 	common, _ := dialects(t)
 	evid.Check(t, rec, evid.N(40000, 200000), func(t *rapid.T) {
 		readBufSize = 512
@@ -365,7 +431,20 @@ func TestC07WindowRandom(t *testing.T) {
 		// the same history on a reader that has a dialect, the frames carrying known and unknown messages
 		if rapid.Bool().Draw(t, "with_dialect") {
 			known := rapid.SliceOfN(rapid.Bool(), len(hist), len(hist)).Draw(t, "known_message")
-			if _, err := runHistoryDialect(hist, common, known); err != nil {
+			historyFrameKinds = map[int]int{}
+			special := false
+			for i := range hist {
+				if known[i] {
+					historyFrameKinds[i] = rapid.SampledFrom([]int{1, 1, 1, 2, 2, 3}).Draw(t, "frame_kind")
+					special = special || historyFrameKinds[i] >= 2
+				}
+			}
+			_, err := runHistoryDialect(hist, common, known)
+			historyFrameKinds = map[int]int{}
+			if special {
+				cs = append(cs, "history-with-setup-signing-or-foreign-checksum-frames")
+			}
+			if err != nil {
 				evid.ReplayNote("C07", "TestC07WindowRandom", err.Error())
 				t.Fatalf("%v", err)
 			}
